@@ -381,8 +381,13 @@ fn decode(t: &mut Tape, ctx: &mut Ctx) -> Case {
         5 => lower = f64::NEG_INFINITY,
         6 => upper = f64::INFINITY,
         7 => {
-            lower = f64::NEG_INFINITY;
-            upper = f64::INFINITY;
+            // both ends infinite: the whole line, or a "point" at infinity
+            let (a, b) = *t.pick(&[(f64::NEG_INFINITY, f64::INFINITY), (f64::NEG_INFINITY, f64::INFINITY), (f64::INFINITY, f64::INFINITY), (f64::NEG_INFINITY, f64::NEG_INFINITY)]);
+            lower = a;
+            upper = b;
+            if a == b {
+                ctx.label("bound-is-a-point-at-infinity");
+            }
         }
         8 => {
             if t.coin() {
@@ -478,7 +483,7 @@ impl Property for C12 {
     }
     fn required_labels(&self) -> Vec<String> {
         let mut v: Vec<String> = CLASS_NAMES.iter().map(|c| format!("class={c}")).collect();
-        v.extend(["fractional-bound", "width>4096", "single-integer", "oracle=all-bit-patterns", "oracle=complete-sequence", "child-process", "second-encode", "target-has-recorded-value", "instance-records-parameters", "encode-substitute-encode", "upper-one-ulp-below-integer", "lower-one-ulp-above-integer", "empty-range-hugging-an-integer"].iter().map(|s| s.to_string()));
+        v.extend(["fractional-bound", "width>4096", "single-integer", "oracle=all-bit-patterns", "oracle=complete-sequence", "child-process", "second-encode", "target-has-recorded-value", "instance-records-parameters", "encode-substitute-encode", "upper-one-ulp-below-integer", "lower-one-ulp-above-integer", "empty-range-hugging-an-integer", "bound-is-a-point-at-infinity"].iter().map(|s| s.to_string()));
         v
     }
     fn cases(&self, tier: Tier) -> usize {
